@@ -14,7 +14,8 @@ TEXT = ("Q1 (effect analysis): the transitive write-effect summary of meld conta
         "stage_full_snapshot stage as new winner derives from the same reconstruction function that read uses for the "
         "visible value, applied to the same tree and the revision being re-asserted. Q3: commit's automatic resolution "
         "passes the tree's current winner as the chosen revision and only for trees with more than one leaf. Does not "
-        "decide 'read before = read after' as a value equality for commit, snapshots, or no-op refresh / reload.")
+        "decide 'read before = read after' as a value equality for commit, snapshots, or no-op refresh / reload."
+        " Q2c: stage_full_snapshot stages nothing for an array whose winner is a deletion.")
 TECHNIQUE = 'static analysis over rustc MIR: write-effect summaries of maintenance operations, value provenance of snapshots and resolutions (view at the winner), idempotence guards in refresh'
 TRUSTED = ["rustc nightly MIR", "effect summaries over the resolved call graph (closures, dyn Adapter fan-out)", "C07/V2"]
 
